@@ -1149,7 +1149,7 @@ class EscapeAnalysis:
                     add([B + "RecursionError"], "yaml load (PyYAML's Composer/Constructor recurse once per nesting level: `[[[[...` deeper than the recursion limit)")
                 extra = self.yaml_scalar_constructor_errors()
                 if extra:
-                    add(extra, "yaml load (SafeConstructor scalar constructors: int()/datetime of a matched scalar raise a plain ValueError, not a YAMLError)")
+                    add(extra, "yaml load (SafeConstructor scalar constructors raise plain builtin exceptions, not YAMLError: ValueError for int()/datetime of a matched scalar; KeyError / IndexError / AttributeError for explicitly tagged scalars such as `!!bool maybe`, `!!int ''`, `!!timestamp today`)")
             elif n in ("urllib.parse.urlparse", "urllib.parse.urlsplit"):
                 if call.args and isinstance(call.args[0], ast.Constant):
                     pass
@@ -1247,10 +1247,14 @@ class EscapeAnalysis:
                 self._assume(fi, call, "jinja env.parse of the very string from_string() compiled earlier on this path")
             else:
                 add([B + "Exception"], "jinja2 template compilation/rendering")
+                if attr == "render" and not self._jinja_sandboxed(call, fi):
+                    add([B + "SystemExit"], "jinja2 expression rendered outside a SandboxedEnvironment: document text reaches __globals__/__builtins__ and can run arbitrary code (exit(), os._exit, open())")
         # (tuple-unpack of split-derived sequences: statement-level entry, see unpack_raises)
         # foreign callables
         for t in targets:
-            if isinstance(t, Special) and t.kind == FOREIGN:
+            if isinstance(t, Special) and t.kind == DIRECTIVE_RUN:
+                add([B + "Exception"], f"{t.text}(): a directive's run() is foreign code; docutils' own directives raise outside their contract (Figure.run: IndexError on a body that parses to nothing)")
+            elif isinstance(t, Special) and t.kind == FOREIGN:
                 add([B + "Exception"], f"foreign callable {t.text}(...) applied to document text")
             elif isinstance(t, Special) and t.kind == CONVERTER_TABLE:
                 bad = self.converter_tables_not_docutils()
@@ -1402,14 +1406,32 @@ class EscapeAnalysis:
             if ci is None:
                 return [B + "ValueError"]
             fallible = ("int", "float", "datetime.date", "datetime.datetime", "datetime.timezone")
+            found: set[str] = set()
             for name, f in ci.methods.items():
                 if not name.startswith("construct_yaml_"):
                     continue
+                def unprotected(x) -> bool:
+                    return not any(isinstance(a, ast.Try) and any(x in ast.walk(b) for b in a.body) for a in ancestors(x))
+
                 for c in f.local_nodes():
                     if isinstance(c, ast.Call) and dotted(c.func) in fallible and c.args and not isinstance(c.args[0], ast.Constant):
-                        if not any(isinstance(a, ast.Try) and any(c in ast.walk(b) for b in a.body) for a in ancestors(c)):
-                            return [B + "ValueError"]
-            return []
+                        if unprotected(c):
+                            found.add(B + "ValueError")
+                    # an explicitly tagged scalar (`!!bool maybe`, `!!int ''`, `!!timestamp today`) reaches the constructor
+                    # without having matched the implicit resolver's regex:
+                    if isinstance(c, ast.Subscript) and isinstance(c.ctx, ast.Load) and unprotected(c):
+                        if isinstance(c.value, ast.Attribute) and isinstance(c.value.value, ast.Name) and c.value.value.id == "self" and not isinstance(c.slice, ast.Constant):
+                            found.add(B + "KeyError")  # self.bool_values[value.lower()]
+                        if isinstance(c.value, ast.Name) and isinstance(c.slice, ast.Constant) and isinstance(c.slice.value, int):
+                            found.add(B + "IndexError")  # value[0] of an empty scalar
+                    if isinstance(c, ast.Attribute) and isinstance(c.value, ast.Name) and unprotected(c):
+                        # the result of <regexp>.match(..) dereferenced without a None test
+                        src_ = [n for n in f.local_nodes() if isinstance(n, ast.Assign) and len(n.targets) == 1 and isinstance(n.targets[0], ast.Name) and n.targets[0].id == c.value.id]
+                        if src_ and all(isinstance(n.value, ast.Call) and isinstance(n.value.func, ast.Attribute) and n.value.func.attr in ("match", "fullmatch", "search") for n in src_):
+                            tested = any(isinstance(i, ast.If) and c.value.id in unparse(i.test) for i in f.local_nodes())
+                            if not tested:
+                                found.add(B + "AttributeError")
+            return sorted(found)
 
         return self.c.cache("yaml-scalar-constructor-errors", compute)
 
@@ -1983,6 +2005,17 @@ class EscapeAnalysis:
                 if isinstance(n.value, ast.Call) and fi.module.resolve(dotted(n.value.func) or "").startswith("jinja2."):
                     return True
         return False
+
+    def _jinja_sandboxed(self, call: ast.Call, fi: FunctionInfo) -> bool:
+        """Every jinja2 environment constructed in the function (or bound to the receiver) is a sandboxed one."""
+        envs = [
+            n.value for n in walk_local(fi.node)
+            if isinstance(n, ast.Assign) and isinstance(n.value, ast.Call) and fi.module.resolve(dotted(n.value.func) or "").startswith("jinja2.")
+            and fi.module.resolve(dotted(n.value.func) or "").rsplit(".", 1)[-1].endswith("Environment")
+        ]
+        if not envs:
+            return True  # built elsewhere: not judged here
+        return all("Sandboxed" in fi.module.resolve(dotted(e.func) or "") for e in envs)
 
     def _jinja_parse_after_compile(self, call: ast.Call, fi: FunctionInfo) -> bool:
         if len(call.args) != 1:
